@@ -78,6 +78,6 @@ theorem Tie_bitmap_FromStr32 (s : List Nat) (f t : Nat)
 
 example : Gen.Ssa.bitmap_FromStr32 [0x61, 0x62, 0x63] 5 12 = some (7, 0x16) := by decide
 example : fromStr32 [0x61, 0x62, 0x63] 5 12 = (7, 0x16) := by decide
-example : Gen.Ssa.bitmap_FromStr32 [0x61, 0x62, 0x63] 20 40 = some (4, 3) := by decide
+example : Gen.Ssa.bitmap_FromStr32 [0x61, 0x62, 0x63] 20 40 = some (4, 0x30000) := by decide
 
 end Low
